@@ -11,7 +11,7 @@ import itertools
 
 import numpy as np
 
-from checks.common import hash_tag, relayout, xf_build, xf_names
+from checks.common import hash_tag, relayout, xf_build, xf_names, canon_value, quiet_call
 from qmc import gen as G
 from qmc import oracle as O
 from qmc.loader import load
@@ -190,6 +190,19 @@ def run_case(case, seed):
         good += 1
         if conv and b >= 1:
             break
+    if not fails:
+        # verbose=True and return_diagnostics=False must return the same factors (budgets 0 and 3)
+        for b in (0, 3):
+            ok0, r0 = quiet_call(fn, Aq, max_iter=b, tol=tol, return_diagnostics=True, **kw)
+            okv, rv = quiet_call(fn, Aq, max_iter=b, tol=tol, return_diagnostics=True, verbose=True, **kw)
+            okp, rp = quiet_call(fn, Aq, max_iter=b, tol=tol, **kw)
+            if not (ok0 and okv and okp):
+                fails.append(fail("raised", f"budget {b}: verbose / plain call raised: {[r for o, r in ((ok0, r0), (okv, rv), (okp, rp)) if not o]}", budget=b, **tags))
+            else:
+                if canon_value(rv[:2]) != canon_value(r0[:2]):
+                    fails.append(fail("verbose_changes_result", f"budget {b}: verbose=True returns different factors", budget=b, **tags))
+                if not (isinstance(rp, tuple) and len(rp) == 2) or canon_value(rp) != canon_value(r0[:2]):
+                    fails.append(fail("return_diagnostics_changes_result", f"budget {b}: return_diagnostics=False returns different factors", budget=b, **tags))
     if Aq.tobytes() != before:
         fails.append(fail("input_unchanged", "argument modified", **tags))
     return {
